@@ -81,7 +81,7 @@ def tree_make(rng, sid):
     if p["call"][0] == "RC" and rng.random() < 0.4:
         p["slot_pre"] = b";".join(([p["slot_pre"]] if p["slot_pre"] else []) + [b"JOIN_SAME_ENTRIES=1"])
     tg = gen_tree.Tagger()
-    t = gen_tree.random_tree(rng, p["dirs"], p["name"], p["dsfx"], p["postfixes"], tg)
+    t = gen_tree.random_tree(rng, p["dirs"], p["name"], p["dsfx"], p["postfixes"], tg, decoys=p["decoys"])
     files = [i for i, f in enumerate(t.files) if f[1] == "file"]
     s = Scenario(sid, {"tree": True, "shape": shape})
     if files:
